@@ -30,7 +30,7 @@ tvars == <<avars, bvars, tid, pos, acc>>
 T == Traces[tid]
 
 CfgOf(e) == [kind |-> e.kind, nobs |-> e.nobs, S |-> e.S, C |-> e.C, burn |-> e.burn,
-             steps |-> e.steps, L |-> e.L, ow |-> e.ow]
+             steps |-> e.steps, L |-> e.L, ow |-> e.ow, conv |-> ("conv" \in DOMAIN e /\ e.conv)]
 
 -----------------------------------------------------------------------------
 (* Non-negative big integers: little-endian sequences of limbs base 10^4    *)
